@@ -1980,8 +1980,16 @@ def compile_require(compiler, expr, root, entries):
                     dotted("hy.macros.require_vals"),
                     String(module_name),
                     Dict(),
+                    # Repeat the same request at run-time. The source names
+                    # in `reqs` can belong to a submodule of `module_name`.
                     Keyword("assignments"),
-                    List([(String(m), String(m)) for _, m, _ in reqs])])]).replace(expr))
+                    (
+                        String(assignments)
+                        if assignments in ("ALL", "EXPORTS")
+                        else List([List([String(k), String(v)]) for k, v in assignments])
+                    ),
+                    Keyword("prefix"),
+                    String(prefix)])]).replace(expr))
             ret += ret.expr_as_stmt()
         elif (rest or not readers) and require(
                 module_name,
